@@ -7,7 +7,7 @@ from vf.core import Sub, Violation, Skip
 
 PROPERTY = "C03"
 RULE = ("(sizes sub-check: 31..1025 (thorough 4097) members or forecasts, at and "
-        "around powers of two, with observations outside the ensemble.) " +
+        "around powers of two and round numbers, with observations outside the ensemble.) " +
         "Hypothesis-generated (observations, ensemble) pairs: n forecasts x m "
         "members from four value regimes (continuous normals, small integer "
         "lattice with heavy ties, observation outside the ensemble for every "
@@ -99,7 +99,7 @@ def cases(draw, tier):
     m = draw(st.integers(1, mmax))
     regime = draw(st.sampled_from(["normal", "lattice", "outlier",
                                    "constant", "lattice", "mixed",
-                                   "normal"]))
+                                   "normal", "constant-obs"]))
     fl = st.floats(-1e3, 1e3, allow_nan=False, width=64)
     lat = st.integers(-3, 3).map(float)
     if regime == "normal":
@@ -125,6 +125,13 @@ def cases(draw, tier):
             s = side if side != "either" else draw(
                 st.sampled_from(["below", "above"]))
             obs.append(min(row) - d if s == "below" else max(row) + d)
+    elif regime == "constant-obs":
+        # every observation equal to the same (not exactly representable)
+        # value: the climatology has no spread, the uncertainty is 0
+        v0 = draw(st.sampled_from([0.1, 1. / 3, 2.7, -0.7, 1e-3, 123.456]))
+        obs = [v0] * n
+        ens = draw(st.lists(st.lists(st.one_of(fl, st.just(v0)), min_size=m,
+                                     max_size=m), min_size=n, max_size=n))
     else:
         vals = draw(st.lists(lat, min_size=n, max_size=n))
         ens = [[v] * m for v in vals]
@@ -138,7 +145,8 @@ def cases(draw, tier):
                                       "column-obs", "int", "float32"]))
     mperm = [draw(st.permutations(list(range(m)))) for _ in range(n)]
     fperm = draw(st.permutations(list(range(n))))
-    shift = draw(st.sampled_from([0.0, 1.0, -7.5, 1e3, 0.1]))
+    shift = draw(st.sampled_from([0.0, 1.0, -7.5, 1e3, 0.1, 2.0**30, 2.0**40,
+                                  -2.0**45]))
     scale = draw(st.sampled_from([1.0, 2.0, 0.5, 3.7, 1e-3, 1e3, 2.0**-60,
                                   2.0**-200, 2.0**60, 2.0**-40]))
     return {"obs": obs, "ens": ens, "nanpos": nanpos, "regime": regime,
@@ -213,9 +221,13 @@ def oracle(case):
                         f"{d['potential']!r}")
     if not close(d["resolution"], d["uncertainty"] - d["potential"], tol):
         raise Violation("resolution != uncertainty - potential")
-    for k in ["reliability", "potential", "uncertainty", "crps"]:
+    for k in ["reliability", "potential", "crps"]:
         if d[k] < -1e-12 * mag:
             raise Violation(f"{k} negative: {d[k]!r}")
+    # (a mean of absolute differences: not even rounding can make it
+    # negative)
+    if d["uncertainty"] < 0:
+        raise Violation(f"uncertainty negative: {d['uncertainty']!r}")
     if m == 1:
         mae = np.mean(np.abs(vens[:, 0] - vobs))
         if not close(d["crps"], mae, tol):
@@ -258,6 +270,7 @@ def oracle(case):
         if not close(np.sum(a[1:m] + b[1:m]), rng_, tol):
             raise Violation("inner a+b do not add up to the mean range")
 
+    labels_extra = []
     # metamorphic relations
     def structure(o, e):
         x = np.column_stack([o, e])
@@ -285,9 +298,17 @@ def oracle(case):
     if c != 0:
         exact["shift"] = bool(np.array_equal(
             s0, structure(vobs + c, vens + c)))
-        same(call(obs + c, ens0 + c)[0], f"adding {c}",
-             t2=1e-9 * (mag + abs(c)),
+        # a shift that is exact in floating point (whole / half numbers
+        # moved by a power of two) leaves every difference between values
+        # unchanged bit for bit: the scores must not feel the new level
+        lossless = bool(np.array_equal((vobs + c) - c, vobs)
+                        and np.array_equal((vens + c) - c, vens))
+        same(call(obs + c, ens0 + c)[0], f"adding {c}"
+             + (" (exactly)" if lossless else ""),
+             t2=1e-9 * mag if lossless else 1e-9 * (mag + abs(c)),
              keys=KEYS if exact["shift"] else cont)
+        if lossless and abs(c) > 1e6:
+            labels_extra.append("lossless-shift-to-a-high-level")
     if k != 1:
         exact["scale"] = bool(np.array_equal(
             s0, structure(vobs * k, vens * k)))
@@ -298,7 +319,8 @@ def oracle(case):
     ties_mm = any(len(set(r)) < m for r in vens.tolist())
     ties_mo = bool(np.any(vens == vobs[:, None]))
     outl = bool(np.any((vobs < vens.min(axis=1)) | (vobs > vens.max(axis=1))))
-    labels = [f"regime:{case['regime']}", f"container:{case['container']}"]
+    labels = [f"regime:{case['regime']}", f"container:{case['container']}"] \
+        + labels_extra
     if ties_mm:
         labels.append("tie:member-member")
     if ties_mo:
@@ -359,6 +381,18 @@ def large_oracle(case):
     for k in ("reliability", "potential", "uncertainty"):
         if d[k] < -tol:
             raise Violation(f"n={n}: {k} negative: {d[k]!r}")
+    # the same record 2^40 higher (an exact shift for half-integer data):
+    # the scores do not feel the level
+    c = 2.0 ** 40
+    if n <= 50000 and np.array_equal((obs + c) - c, obs) \
+            and np.array_equal((ens + c) - c, ens):
+        d2, _ = metrics.crps(obs + c, ens + c)
+        for k in ("crps", "uncertainty", "reliability", "potential"):
+            tk = tol_u if k == "uncertainty" else tol
+            if not close(d2[k], d[k], tk):
+                raise Violation(f"n={n}: adding 2^40 to observations and "
+                                f"members changes {k}: {d[k]!r} -> "
+                                f"{d2[k]!r}")
     return {"nt": True, "labels": [f"n:{n}"]}
 
 
@@ -366,8 +400,8 @@ def enum_wide(tier):
     """Ensemble and record sizes at and around powers of two (internal
     buffers, unrolled loops): 1..6 forecasts of m members, and m forecasts
     of 3 members."""
-    ms = [31, 32, 33, 63, 64, 65, 127, 128, 129, 255, 256, 257, 511, 512,
-          513, 1023, 1024, 1025]
+    ms = [31, 32, 33, 63, 64, 65, 99, 100, 101, 127, 128, 129, 255, 256, 257,
+          499, 500, 501, 511, 512, 513, 999, 1000, 1001, 1023, 1024, 1025]
     if tier == "thorough":
         ms += [100, 200, 1000, 2047, 2048, 2049, 4096, 4097]
     for m in ms:
